@@ -609,7 +609,9 @@ impl<'a> TupleReader<'a> {
         let bitmap_size = null_bitmap_size(num_values);
         let mut cursor = layout.delta_start();
 
-        while cursor < data.len() {
+        // A delta starts at the next aligned offset; what is left after the oldest delta can be
+        // alignment padding of the stored tuple (fewer bytes than a delta header), not a delta.
+        while DeltaHeader::aligned_offset(cursor) + std::mem::size_of::<DeltaHeader>() <= data.len() {
             let (delta_header, header_end) = DeltaHeader::read_from(data, cursor);
             cursor = header_end;
 
